@@ -703,7 +703,7 @@ pub fn c09(tier: Tier) -> i32 {
     }
     let n_hist = scenarios.len();
     // (a') every class string, sequential next() / plain set reads, recording policies
-    let maxlen = if tier == Tier::Quick { 6 } else { 8 };
+    let maxlen = if tier == Tier::Quick { 6 } else { 7 };
     for &format in &[Format::Fasta, Format::Fastq] {
         for idx in 0..class_count(format, maxlen) {
             let data = class_string(format, idx);
